@@ -172,14 +172,13 @@ def _parts(repo_src, g):
             opx = 'op' if has_op else ops_[0]
             req = ('    requires ' + ' || '.join('op == %s' % o for o in ops_) + ',\n') if has_op else ''
             setter = mgr == 'infix' and any('SETTER' in a_ for r_ in rs for a_ in r_['args'])
-            if mgr == 'infix':
-                ens = '    ensures agree_v(r, spec_infix(%s, vv(%s), vv(%s))),  // @C03,C04,C09%s handler.%s' % (opx, vals[0], vals[1], ',C06' if setter else '', h)
-            elif mgr == 'prefix':
-                ens = '    ensures agree_v(r, spec_prefix(%s, vv(%s))),  // @C03,C04 handler.%s' % (opx, vals[0], h)
-            elif mgr == 'postfix':
-                ens = '    ensures agree_v(r, spec_postfix(%s, vv(%s))),  // @C03,C04 handler.%s' % (opx, vals[0], h)
-            else:
-                ens = '    ensures agree_v(r, spec_func(%s, vv_seq(%s@))),  // @C03,C04 handler.%s' % (opx, vals[0], h)
+            if mgr == 'infix': sp_, lab_v, lab_f = 'spec_infix(%s, vv(%s), vv(%s))' % (opx, vals[0], vals[1]), 'C03,C09' + (',C06' if setter else ''), 'C03,C04' + (',C06' if setter else '')
+            elif mgr == 'prefix': sp_, lab_v, lab_f = 'spec_prefix(%s, vv(%s))' % (opx, vals[0]), 'C03', 'C03,C04'
+            elif mgr == 'postfix': sp_, lab_v, lab_f = 'spec_postfix(%s, vv(%s))' % (opx, vals[0]), 'C03', 'C03,C04'
+            else: sp_, lab_v, lab_f = 'spec_func(%s, vv_seq(%s@))' % (opx, vals[0]), 'C03', 'C03,C04'
+            # two clauses, so that a wrong value and a fault that is not reported are told apart (C04 is about the second)
+            ens = ('    ensures (r is Ok) == %s.is_some(),  // @%s handler.%s.fault\n'
+                   '        r matches Ok(v_) ==> %s.is_some() && vv(v_) == %s.unwrap(),  // @%s handler.%s.value') % (sp_, lab_f, h, sp_, sp_, lab_v, h)
             hints = [Ins('entry', '', '        proof { lemma_op_literals(); }')]
             for o in ops_:
                 hints += HINTS.get('%s:%s' % (mgr, o.strip('"')), [])
